@@ -44,6 +44,9 @@ var propSpecs = map[string]PropSpec{
 	"C13": {ID: "C13", Level: "proof", Patterns: modelPkgs},
 	"C15": {ID: "C15", Level: "proof", Patterns: modelPkgs},
 	"C16": {ID: "C16", Level: "proof", Patterns: modelPkgs},
+	"C17": {ID: "C17", Level: "other", Patterns: []string{"./sim/...", "./io/json/...", "./data"},
+		Explanation: "Partial, by contracts on the real runner code (sim/single.go, io/json/json.go): request assembly is proved exact - every parameter handed to the model is the first value of that name in the request or else the description's default, every supplied input series is row k of the input array (all values, all lengths), missing inputs are zero rows, all input series must have one length, the parameter matrix is the uniform one-column matrix - and no statement of Initialise, RunSingleModelJSON, encodeResults and JsonSafeArray can panic (index, slice, nil, division obligations; the deferred encoder runs on every return path), given the assumed interface contracts of the catalogued model (Description pure, InitialiseStates a fresh one-row matrix, Run's preconditions established by the runner). Not decided here: the text written to the output (encoding/json and fmt are external: that exactly one valid document is produced, and the strings chosen for NaN/Inf), the nesting of the interface{} tree built by JsonSafeArray beyond its length per level, and the equality of the run with a direct Run (the runner calls the same Run on the assembled arrays; C04 covers Run).",
+		NotCovered: []string{"bytes produced by encoding/json and fmt (valid JSON, NaN/+Inf/-Inf strings)", "contents of the interface{} tree returned by JsonSafeArray (only the length per level)", "flat-index safety of element reads through the over-long views JsonSafeArray builds (views unchecked)", "cmd/ow-single main (flag parsing, stdin/stdout)"}},
 	"C18": {ID: "C18", Level: "proof", Patterns: modelPkgs},
 	"C19": {ID: "C19", Level: "proof", Patterns: modelPkgs},
 	"C20": {ID: "C20", Level: "other", Patterns: modelPkgs,
